@@ -2,12 +2,11 @@
 // fromFileInterleaved and partFromFile (node split points), plus the cross-reader check of the
 // version-2 padding question.
 //
-// Version 2, odd edge count, edge data present: the documented layout leaves no pad after the
-// 64-bit destinations, some readers skip one 8-byte word. The reference therefore writes the file
-// under BOTH conventions and a reader is judged correct if it reads the source graph from at least
-// one of them (convention-free verdict); the v2layout component then demands that the library's own
-// readers agree on ONE convention (otherwise no v2 file with an odd edge count can be read both
-// whole and by sub-range).
+// Version 2 has one layout everywhere: no pad word after the 64-bit destinations (the format
+// comment, rawBlockSize, FileGraphWriter::phase1, partFromFile, OfflineGraph and -- since the fix of
+// the reader/writer disagreement -- fromMem/fromArrays). Reference files are written that way only;
+// the v2layout component runs every version-2 capable reader on the SAME file with an odd edge
+// count and edge data, the corner where the readers used to disagree.
 #include "c12_common.h"
 
 #include "galois/Galois.h"
@@ -24,59 +23,20 @@ struct PeekGraph : gg::FileGraph {
   const char* rawEdgeData() const { return edgeData; }
 };
 
-struct Conv {
-  ref::V2Pad pad;
-  const char* name;
-  std::string path;
-  bool ok = true;
-  std::string witness;
-};
-
-// files to read for this case: one, or two when the padding convention matters
-std::vector<Conv> writeInputs(Case& c) {
-  std::vector<Conv> v;
-  if (c.version == 2 && c.odd && c.width) {
-    v.push_back({ref::V2Pad::None, "none", c.path("n")});
-    v.push_back({ref::V2Pad::Odd8, "odd8", c.path("p")});
-    c.v2BothConventions++;
-  } else
-    v.push_back({ref::V2Pad::None, "-", c.path("f")});
-  for (auto& x : v)
-    ref::write_gr(x.path, c.g, c.version, c.width, x.pad);
-  return v;
-}
-
-std::string bothWitness(const std::vector<Conv>& v) {
-  J j;
-  for (auto& x : v)
-    j.raw((std::string("pad_") + x.name).c_str(), x.witness.empty() ? "\"ok\"" : x.witness);
-  return j.str();
-}
-
-void noteAccepted(Case& c, const std::vector<Conv>& v) {
-  if (v.size() == 2) {
-    c.sigExtra += std::string("|acc:") + (v[0].ok ? "N" : "") + (v[1].ok ? "P" : "");
-  }
+// the reference-written input of this case (version 2: documented layout, no pad word)
+std::string writeInput(Case& c) {
+  std::string p = c.path("f");
+  ref::write_gr(p, c.g, c.version, c.width, ref::V2Pad::None);
+  return p;
 }
 
 // ------------------------------------------------------------------ whole-file readers
 template <typename T>
 std::string readWhole(Case& c, const std::string& path, bool interleaved, bool& dataMissing) {
   PeekGraph r;
-  if (interleaved) {
-    // fromFileInterleaved = fromFile + paging in the arrays; if fromFile presents no edge data for
-    // this file (judged below as "not read correctly") the page-in pass would dereference the null
-    // pointer, so that combination is not run
-    if constexpr (!std::is_void<T>::value) {
-      PeekGraph probe;
-      probe.fromFile(path);
-      if (probe.sizeEdges() && !probe.rawEdgeData()) {
-        dataMissing = true;
-        return J().kv("what", "edgeData == nullptr although the file has edge data").str();
-      }
-    }
+  if (interleaved)
     r.template fromFileInterleaved<T>(path);
-  } else
+  else
     r.fromFile(path);
   c.libReads++;
   const ref::RefGraph& g = c.g;
@@ -95,25 +55,20 @@ std::string readWhole(Case& c, const std::string& path, bool interleaved, bool& 
 template <typename T>
 void fromfile_t(Case& c) {
   const bool interleaved = c.variant & 1;
-  auto in                = writeInputs(c);
-  bool any = false, dataMissing = false;
-  for (auto& x : in) {
-    x.witness = readWhole<T>(c, x.path, interleaved, dataMissing);
-    x.ok      = x.witness.empty();
-    any |= x.ok;
-  }
-  noteAccepted(c, in);
-  if (any)
+  std::string in         = writeInput(c);
+  bool dataMissing       = false;
+  std::string w          = readWhole<T>(c, in, interleaved, dataMissing);
+  if (w.empty())
     return;
   if (dataMissing) {
     if constexpr (!std::is_void<T>::value)
       c.violation("C12:FileGraph.fromFile:edge-data-missing:width" + std::to_string(sizeof(T)),
                   J().kv("what", "reference-written file has edge data, the reader presents none (edgeData == nullptr)")
-                      .kv("file_bytes", fileSize(in[0].path)).kv("edges", c.g.numEdges())
+                      .kv("file_bytes", fileSize(in)).kv("edges", c.g.numEdges())
                       .kv("edge_size", (uint64_t)c.width).kv("version", c.version).str());
     return;
   }
-  c.violation(c.key("content", c.v2class()), bothWitness(in));
+  c.violation(c.key("content", c.v2class()), J().kv("file_bytes", fileSize(in)).raw("diff", w).str());
 }
 
 // ------------------------------------------------------------------ partFromFile
@@ -178,27 +133,20 @@ std::string readPart(Case& c, const std::string& path, const std::vector<uint64_
 
 template <typename T>
 void part_t(Case& c) {
-  auto in     = writeInputs(c);
-  auto E      = edgeStarts(c.g);
-  auto ranges = pickRanges(c, c.g.numNodes, true);
+  std::string in = writeInput(c);
+  auto E         = edgeStarts(c.g);
+  auto ranges    = pickRanges(c, c.g.numNodes, true);
   const bool numaSometimes = c.variant & 1;
-  bool any                 = false;
-  for (auto& x : in) {
-    for (auto& rg : ranges) {
-      bool numa     = numaSometimes && c.rng.below(3) == 0;
-      std::string w = readPart<T>(c, x.path, E, rg, numa);
-      if (!w.empty()) {
-        x.ok      = false;
-        x.witness = J().kv("node_begin", rg.a).kv("node_end", rg.b).kv("edge_begin", E[rg.a]).kv("edge_end", E[rg.b])
-                        .kv("numaMap", numa).raw("diff", w).str();
-        break;
-      }
+  for (auto& rg : ranges) {
+    bool numa     = numaSometimes && c.rng.below(3) == 0;
+    std::string w = readPart<T>(c, in, E, rg, numa);
+    if (!w.empty()) {
+      c.violation(c.key("content", c.v2class()),
+                  J().kv("node_begin", rg.a).kv("node_end", rg.b).kv("edge_begin", E[rg.a]).kv("edge_end", E[rg.b])
+                      .kv("numaMap", numa).kv("file_bytes", fileSize(in)).raw("diff", w).str());
+      return;
     }
-    any |= x.ok;
   }
-  noteAccepted(c, in);
-  if (!any)
-    c.violation(c.key("content", c.v2class()), bothWitness(in));
 }
 
 // ------------------------------------------------------------------ OfflineGraph (used by v2layout)
@@ -227,61 +175,35 @@ std::string readOffline(Case& c, const std::string& path) {
   }
 }
 
-// ------------------------------------------------------------------ v2 layout: do the readers agree?
+// ------------------------------------------------------------------ v2 layout: every reader, one file
 template <typename T>
 void v2layout_t(Case& c) {
   if constexpr (std::is_void<T>::value) {
     return;
   } else {
-    auto in = writeInputs(c); // two files (version 2, odd, data) by construction of the case
-    if (in.size() != 2)
-      return;
+    // version 2, odd edge count, edge data (by construction of the case); one file, documented layout
+    std::string in = writeInput(c);
     c.v2OddDataFiles++;
-    auto E = edgeStarts(c.g);
+    auto E           = edgeStarts(c.g);
     const uint64_t n = c.g.numNodes;
-    struct Reader {
-      const char* name;
-      bool acc[2];
-      std::string wit[2];
-    };
-    std::vector<Reader> rs = {{"fromFile", {}, {}}, {"fromFileInterleaved", {}, {}}, {"partFromFile", {}, {}}, {"OfflineGraph", {}, {}}};
-    for (int k = 0; k < 2; ++k) {
-      bool dm    = false;
-      rs[0].wit[k] = readWhole<T>(c, in[k].path, false, dm);
-      rs[1].wit[k] = readWhole<T>(c, in[k].path, true, dm);
-      // the whole graph as one part, then as two consecutive parts
-      std::string w = readPart<T>(c, in[k].path, E, Range{0, n}, false);
-      uint64_t mid  = c.rng.below(n + 1);
-      if (w.empty())
-        w = readPart<T>(c, in[k].path, E, Range{0, mid}, false);
-      if (w.empty())
-        w = readPart<T>(c, in[k].path, E, Range{mid, n}, false);
-      rs[2].wit[k] = w;
-      rs[3].wit[k] = readOffline<T>(c, in[k].path);
-      for (auto& r : rs)
-        r.acc[k] = r.wit[k].empty();
-    }
-    bool common[2] = {true, true};
-    std::string table = "{";
-    for (size_t i = 0; i < rs.size(); ++i) {
-      auto& r = rs[i];
-      common[0] &= r.acc[0];
-      common[1] &= r.acc[1];
-      table += (i ? "," : "") + verif::jstr(r.name) + ":" +
-               verif::jstr(std::string(r.acc[0] ? "no-pad " : "") + (r.acc[1] ? "8-byte-pad" : ""));
-      c.sigExtra += std::string("|") + (r.acc[0] ? "N" : "") + (r.acc[1] ? "P" : "");
-      if (!r.acc[0] && !r.acc[1])
-        c.violation("C12:FileGraph." + std::string(r.name) + ":content:v2-odd",
-                    J().raw("pad_none", r.wit[0]).raw("pad_odd8", r.wit[1]).str());
-    }
-    table += "}";
-    if (!common[0] && !common[1])
-      c.violation(c.key("readers-disagree", "v2-odd"),
-                  J().kv("what", "version 2, odd edge count, edge data: no placement of the edge data is read correctly by "
-                                 "all of the library's own readers, so no such file can be read both whole and by sub-range")
-                      .raw("reader_accepts", table).kv("nodes", n).kv("edges", c.g.numEdges()).kv("edge_size", c.width)
-                      .raw("example_fromFile_on_no_pad", rs[0].wit[0].empty() ? "\"ok\"" : rs[0].wit[0])
-                      .raw("example_partFromFile_on_8_byte_pad", rs[2].wit[1].empty() ? "\"ok\"" : rs[2].wit[1]).str());
+    bool dm          = false;
+    std::string w[4];
+    w[0] = readWhole<T>(c, in, false, dm);
+    w[1] = readWhole<T>(c, in, true, dm);
+    // the whole graph as one part, then as two consecutive parts
+    w[2]         = readPart<T>(c, in, E, Range{0, n}, false);
+    uint64_t mid = c.rng.below(n + 1);
+    if (w[2].empty())
+      w[2] = readPart<T>(c, in, E, Range{0, mid}, false);
+    if (w[2].empty())
+      w[2] = readPart<T>(c, in, E, Range{mid, n}, false);
+    w[3] = readOffline<T>(c, in);
+    const char* names[4] = {"fromFile", "fromFileInterleaved", "partFromFile", "OfflineGraph"};
+    for (int i = 0; i < 4; ++i)
+      if (!w[i].empty())
+        c.violation("C12:FileGraph." + std::string(names[i]) + ":content:v2-odd",
+                    J().kv("what", "version 2 file (no pad word), odd edge count, edge data").kv("file_bytes", fileSize(in))
+                        .kv("nodes", n).kv("edges", c.g.numEdges()).kv("edge_size", c.width).raw("diff", w[i]).str());
   }
 }
 
